@@ -168,7 +168,20 @@ def clamp_grid(ctx, block):
         for i, c in enumerate(order):
             e = helpers_ref.leaky_clamp(Fraction(c[0], 8), None if c[1] is None else Fraction(c[1], 8),
                                         None if c[2] is None else Fraction(c[2], 8), Fraction(slope_eff), inv_eff)
-            tol = 0 if exact else 4 * eps * (abs(c[0]) + abs(c[1] or 0) + abs(c[2] or 0)) / 8
+            scale = (abs(c[0]) + abs(c[1] or 0) + abs(c[2] or 0)) / 8
+            small = max(abs(c[0]), abs(c[1] or 0), abs(c[2] or 0)) <= 8 * 16
+            if small:
+                tol = 0 if exact else 4 * eps * scale
+            elif regions[i] == "inverted":
+                # 'max': the bound itself; 'mean': one rounded sum of two large bounds, halved
+                tol = 0 if inv_eff == "max" else eps * scale
+            elif regions[i] in ("inside", "at_min", "at_max", "pinched"):
+                # the input itself comes back (maximum / minimum select it): exact.  Only the degenerate slope 1
+                # goes through min + 1*(x - min), whose difference rounds at the scale of the bound.
+                tol = 0 if slope_eff != 1 else 4 * eps * scale
+            else:
+                # below / above with large magnitudes: bound + slope * (x - bound), three roundings at that scale
+                tol = 0 if slope_eff == 0 else 4 * eps * scale
             o = ol[i]
             if o != o or abs(Fraction(o) - e) > tol:
                 ctx.violation(entry, f"{tag}:{regions[i]}",
@@ -748,6 +761,20 @@ def run(ctx):
                         alpha = A6 if (form in ("tensor", "broadcast") or ctx.thorough) else A
                         ctx.run("clamp_grid", {"entry": entry, "slope": slope, "inv": inv, "form": form,
                                                "dtype": dtype, "A8": alpha})
+    # large magnitudes (1e4 .. 1e8, exactly representable in float32) mixed with small ones: a bound must not be
+    # lost by rounding against a far larger or far smaller operand; ordered, tied and inverted as before
+    A_large = [-800000000, -131072, -8, 4, 80000, 536870912, 800000000]   # /8: -1e8, -2^14, -1, 1/2, 1e4, 2^26, 1e8
+    ctx.alphabet("clamp large x,min,max (/8)", A_large)
+    for entry in ("clamp", "leaky_clamp", "Clamp", "LeakyClamp"):
+        leaky = entry in ("leaky_clamp", "LeakyClamp")
+        for slope in (slopes if leaky else [None]):
+            for inv in (None, "mean", "max"):
+                for form in ("tensor", "scalar", "min_only_tensor", "max_only_scalar"):
+                    for dtype in ("float32", "float64"):
+                        if form != "tensor" and (dtype == "float64" or entry in ("clamp", "Clamp")) and ctx.quick:
+                            continue
+                        ctx.run("clamp_grid", {"entry": entry, "slope": slope, "inv": inv, "form": form,
+                                               "dtype": dtype, "A8": A_large})
     # ---------------- Whalley-Wilmott
     s_grid = [-0.2, -0.05, 0.0, 0.03, 0.15]
     t_grid = [0.0, 1 / 256, 0.1, 0.25, 1.0]
@@ -837,9 +864,15 @@ def run(ctx):
         u2 = sorted(set(u2 + [k / 48 for k in range(0, 49)]))
     ctx.alphabet("box_muller u1", u1 if ctx.quick else "quick grid + k/64")
     ctx.alphabet("box_muller u2", u2 if ctx.quick else "quick grid + k/48")
-    for e_arg in (None, 1e-4, 1e-10):
+    ctx.alphabet("box_muller u1 (per dtype, added)", ["tiny", 1e-30, "eps/2", "eps", "2 eps"])
+    ctx.alphabet("box_muller epsilon", ["default 1e-10", 1e-4, 1e-10, 1e-37])
+    for e_arg in (None, 1e-4, 1e-10, 1e-37):
         for dtype in ("float64", "float32"):
-            ctx.run("box_muller", {"dtype": dtype, "epsilon": e_arg, "u1": u1, "u2": u2})
+            fi = torch.finfo(DT[dtype])
+            # uniforms far below the default floor: with a small explicit epsilon (1e-37) the radius is
+            # sqrt(-2 ln u) itself, up to 13 (float32) / 37 (float64); with the default they sit on the floor
+            tail = [float(fi.tiny), 1e-30, fi.eps / 2, fi.eps, 2 * fi.eps]
+            ctx.run("box_muller", {"dtype": dtype, "epsilon": e_arg, "u1": sorted(set(u1 + tail)), "u2": u2})
     # ---------------- realized variance / volatility
     A16 = [12, 16, 20, 24]
     A16x = sorted(set(A16 + [ctx.extra_symbol("price", [8, 10, 14, 18, 22, 28, 32])]))
